@@ -18,8 +18,39 @@ TRUSTED = B.TRUSTED
 ASSUMPTIONS = B.ASSUMPTIONS
 
 
+def loss_scenario(rng):
+    """the owner of an actuator is lost (token expiry or disconnect): actuation fails until housekeeping,
+    afterwards the actuator can be claimed again"""
+    from .. import enc as E
+    L = [[H.PERM, 0] + E.s(H.ALL_SCOPE),
+         [H.PERM, 1] + E.s(rng.choice(["actuate provide read", "actuate", H.ALL_SCOPE, "actuate:Vehicle read:Vehicle"]))]
+    n = rng.randrange(2, 5)
+    for i in range(n):
+        L.append([H.ADD, 0] + E.s("Vehicle.Act%d" % i) + [4, rng.randrange(3), 2, 0, 0, 0])
+    by_expiry = rng.random() < 0.6
+    owner = 1 if by_expiry else 0
+    mine = rng.sample(range(n), rng.randrange(1, n))
+    L.append([H.PROVIDE, owner, len(mine)] + mine)
+    others = [i for i in range(n) if i not in mine]
+    if others and rng.random() < 0.5:
+        L.append([H.PROVIDE, 0, len(others)] + others)
+    act = lambda p, i: [H.ACTUATE, p, i, E.I32, rng.randrange(100)]
+    batch = lambda p, ids: [H.BATCH, p, len(ids)] + sum(([i, E.I32, rng.randrange(100)] for i in ids), [])
+    L += [act(0, mine[0]), [H.DUMP]]
+    L.append([H.TICK] if by_expiry else [H.PROVDOWN, 0])
+    steps = [act(0, rng.choice(mine)), batch(0, rng.sample(mine, len(mine)) + (others[:1] if others else [])),
+             batch(0, [mine[0], mine[0]]), [H.PROVIDE, 0, 1, mine[0]], act(0, rng.choice(mine))]
+    rng.shuffle(steps)
+    for st in steps[:rng.randrange(2, 6)]:
+        L += [st, [H.DUMP]]
+    L += [[H.CLEANUP], [H.DUMP], [H.PROVIDE, 0, len(mine)] + mine, [H.DUMP], act(0, mine[0]), batch(0, mine), [H.DUMP]]
+    return L
+
+
 def generate(rng, tier, n=None, **kw):
-    return B.generate(rng, tier, weights=WEIGHTS, n=n, **GEN_KW)
+    cases = B.generate(rng, tier, weights=WEIGHTS, n=n, **GEN_KW)
+    k = 40 if tier == "quick" else 600
+    return cases + [("loss%d" % i, loss_scenario(rng)) for i in range(k)]
 
 
 GEN_KW = {}
